@@ -3,6 +3,7 @@ package props
 import (
 	"bytes"
 	"encoding/binary"
+	"encoding/hex"
 	"encoding/json"
 	"fmt"
 	"os"
@@ -33,6 +34,9 @@ func init() {
 		Assumptions: []string{"compat set is narrower than what validateFieldDef admits; no verdict from rejections outside it", "narrow-type invalid sentinels and +90 degrees latitude are excluded from value demands", "messages no file container holds are not observable through the public API and are not covered"},
 		Run:         runC02,
 		Replay: func(raw json.RawMessage) (string, error) {
+			if s, ok, err := mixReplay(raw); ok {
+				return s, err
+			}
 			var r c02Replay
 			json.Unmarshal(raw, &r)
 			res := safeDecode(bytes.NewReader(vx.UnHex(r.Hex)))
@@ -190,6 +194,11 @@ func newWant(m uint16, ft byte) reflect.Value {
 func runC02(w *vx.W) {
 	p := prof()
 	thorough := !w.Quick()
+	mixLen := 3
+	if !w.Quick() {
+		mixLen = 4
+	}
+	mixFamily(w, mixLen)
 	// ---- record independence on the device-file corpus and the shared streams
 	for i, path := range corpusFiles() {
 		if !w.Mine(int64(i)) {
@@ -201,6 +210,11 @@ func runC02(w *vx.W) {
 		}
 		c02Independence(w, path, b)
 		w.Fam("independence-files", 1)
+		// the whole device file against the complete reference decoder
+		if msg := mixCheck(b); msg != "" {
+			w.Violation("corpus-reference-decoder", path+": "+msg, mixReplayT{Mix: true, Word: path, Stream: hex.EncodeToString(b)})
+		}
+		w.Fam("corpus-reference-decoder", 1)
 	}
 	for i, s := range []namedStream{sAct3, sAct3BE, sSet, sBig, sMonState, sZero} {
 		if w.Mine(int64(i)) {
